@@ -1373,8 +1373,12 @@ class PythonGenericType(DataType):
         except TypeError:
             return False
 
-        # the underlying pandas dtype must be an object
-        if pandera_dtype != Engine.dtype(self._pandas_type):
+        # the underlying pandas dtype must be an object, or the data type
+        # is compared with itself
+        if (
+            pandera_dtype != Engine.dtype(self._pandas_type)
+            and pandera_dtype != self
+        ):
             return False
 
         if data_container is None:
